@@ -20,7 +20,8 @@ from engine import symex
 from engine import fakes_transfer as ft
 from engine.fakes_transfer import ST, UP, DOWN, TLoop
 
-from aioslsk.exceptions import InvalidStateTransition
+from aioslsk.exceptions import ConnectionWriteError, InvalidStateTransition
+from aioslsk.protocol.messages import PeerTransferQueue
 from aioslsk.transfer import manager as tm
 from aioslsk.transfer.manager import TransferManager, _RequestFlag
 from aioslsk.transfer.model import Transfer
@@ -38,7 +39,7 @@ FIELDS = ('remotely_queued', 'place_in_queue', 'fail_reason', 'abort_reason', 'f
 
 
 def h_step(c, dirs, users):
-    ft.step_harness(c, dirs, users, 'C06', inflight=True, sym_users=False)
+    ft.step_harness(c, dirs, users, 'C06', inflight=True, sym_users=False, locks=True)
 
 
 def _drive(loop, coro):
@@ -104,8 +105,19 @@ def _at(c, var, s):
     return bool(var == s)
 
 
+class _PeerConn:
+    """message connection of the peer as seen by the PeerTransferQueue handler"""
+
+    def __init__(self, username):
+        self.username = username
+        self.queued = []
+
+    def queue_message(self, m):
+        self.queued.append(m)
+
+
 def h_cancel(c, kind='download', init=('QUEUED',), op='abort', target=0, cycles=1, sends=2,
-             outcomes=('ok', 'slow_ok', 'slow_err'), replies=1, max_steps=90):
+             outcomes=('ok', 'slow_ok', 'slow_err'), replies=1, max_steps=90, tail=False):
     loop = TLoop()
     up = kind == 'upload'
     phase = {'after_return': False, 'sends': 0}
@@ -154,25 +166,43 @@ def h_cancel(c, kind='download', init=('QUEUED',), op='abort', target=0, cycles=
             _trace(c, loop, w, T)
         loop.call(w.manager._management_task.start)
 
-        seen = {'dup': False, 'lost': False}
+        # first anomaly seen per transfer (finite tag, goes into the signature of a failure)
+        cause = {}
+        reported = set()
+        prev_hook = loop.on_task
+
+        def on_task(rec):
+            if prev_hook is not None:
+                prev_hook(rec)
+            t = rec['transfer']
+            if rec['kind'] not in ft.NEGOTIATION_COROS or all(t is not x for x in T):
+                return
+            i = next(k for k, x in enumerate(T) if x is t)
+            others = [r for r in ft.live_negotiations(loop, t) if r is not rec]
+            if t._state_lock.locked():
+                cause.setdefault(i, 'started_during_transition')
+            elif others:
+                cause.setdefault(i, 'second_negotiation_started')
+        loop.on_task = on_task
 
         def observe():
-            for t in T:
+            for i, t in enumerate(T):
                 live = ft.live_negotiations(loop, t)
-                if len(live) > 1 and not seen['dup']:
-                    seen['dup'] = True
-                    c.reach('two_negotiations_seen')
-                    c.check(False, 'single_negotiation_in_flight', sig=[kind, init[T.index(t)], 'scenario'],
-                            info={'tasks': [r['name'] for r in live], 't': loop.time()})
-                if live and t is tgt and not seen['dup']:
+                if live:
                     handles = t.get_tasks()
                     if any(all(r['task'] is not h for h in handles) for r in live):
-                        seen['lost'] = True
+                        cause.setdefault(i, 'handle_cleared_by_older_task')
+                if len(live) > 1 and i not in reported:
+                    reported.add(i)
+                    c.reach('two_negotiations_seen')
+                    c.check(False, 'single_negotiation_in_flight', sig=[kind, init[i], cause.get(i, 'unknown'), 'scenario'],
+                            info={'tasks': [r['kind'] for r in live], 't': loop.time()})
 
         opcall = {'abort': w.manager.abort, 'pause': w.manager.pause, 'remove': w.manager.remove}[op]
         op_step = c.fresh_int('op_step', 0, max_steps)
         op_task = None
         injected = replied = s = 0
+        broke = requeued = 0
         while True:
             observe()
             if op_task is not None and op_task.done():
@@ -192,7 +222,22 @@ def h_cancel(c, kind='download', init=('QUEUED',), op='abort', target=0, cycles=
             waiter = w.net.pending_reply()
             if op_task is None and waiter is not None and replied < replies:
                 options.append('reply_allowed')
+            if tail and op_task is None:
+                # the upload breaks while the file is being sent; the peer asks for the file again
+                # while our PeerUploadFailed notification is still on its way
+                conn = next((x for x in w.net.file_connections if not x.release.done() and not x.closed), None)
+                if conn is not None and tgt.state.VALUE == ST.UPLOADING and not broke:
+                    options.append('write_error')
+                if tgt.state.VALUE == ST.FAILED and broke and not requeued:
+                    options.append('peer_requeues')
             what = c.pick(options, 'idle') if len(options) > 1 else 'wait'
+            if what == 'write_error':
+                broke = 1
+                loop.call(conn.release.set_exception, ConnectionWriteError('fake: connection reset'))
+            elif what == 'peer_requeues':
+                requeued = 1
+                loop.spawn(w.manager._on_peer_transfer_queue(PeerTransferQueue.Request(tgt.remote_path), _PeerConn('peer0')),
+                           name='peer-queues-again')
             if what != 'wait':
                 c.note(f't={loop.time():.2f} step={loop.steps} idle point: {what}')
             if what == 'cycle':
@@ -203,7 +248,14 @@ def h_cancel(c, kind='download', init=('QUEUED',), op='abort', target=0, cycles=
                 loop.call(w.net.answer, waiter, True)
             elif not loop.jump() or loop.time() > 5000:
                 if op_task is not None:
-                    raise symex.HarnessError('user call never returns')
+                    # everything else has settled (or only hanging connection attempts are left) and the
+                    # call is still pending: it never returns (e.g. it waits for a task it did not cancel,
+                    # or it deadlocks on the state lock) - the premise of the property can never be met
+                    c.reach('op_never_returns')
+                    c.check(False, 'call_returns', sig=[kind, init[target], op],
+                            info={'t': loop.time(), 'alive': [r['kind'] for r in ft.live_negotiations(loop, tgt)]})
+                    loop.cleanup()
+                    return
                 # last point: everything has settled (or only hanging connection attempts are left)
                 c.assume(op_step >= s)
                 c.note(f't={loop.time():.2f} step={loop.steps} user calls {op}(transfer {target}) state={tgt.state.VALUE.name}')
@@ -219,9 +271,10 @@ def h_cancel(c, kind='download', init=('QUEUED',), op='abort', target=0, cycles=
             return
         c.reach('op_returned')
         c.note(f't={loop.time():.2f} step={loop.steps} {op} returned, state={tgt.state.VALUE.name}')
-        cause = 'two_negotiations' if seen['dup'] else 'handle_lost' if seen['lost'] else 'not_cancelled'
-        sig = [kind, init[target], op, cause]
-        live = ft.live_negotiations(loop, tgt)
+        sig = [kind, init[target], op, cause.get(target, 'not_cancelled')]
+        # a task whose cancellation has been requested and that ends without doing anything more is
+        # harmless; if it swallowed the cancellation the obligations below see what it does
+        live = [r for r in ft.live_negotiations(loop, tgt) if r['task'].cancelling() == 0]
         state_ok = all(x is not tgt for x in w.manager.transfers) if op == 'remove' else \
             tgt.state.VALUE == (ST.ABORTED if op == 'abort' else ST.PAUSED)
         snap = _snapshot(tgt)
@@ -298,16 +351,19 @@ META = {
               'step only: Transfer.state -> object exposing VALUE as a lazily forking symbolic enum (real state classes in replay); '
               'list in aioslsk.transfer.manager -> list subclass that merges the outcomes of a symbolic slice bound',
               'progress reporting task not started (only the management BackgroundTask runs)'],
-    'data_variables': ['upload_slots 0..4 (step)', 'remotely_queued / fail reason present / task in flight per transfer (Bool, step)',
+    'data_variables': ['upload_slots 0..4 (step)', 'remotely_queued / fail reason present / task in flight / transition in progress per transfer (Bool, step)',
+                       'loop step at which the user call is issued (Int, split once per step)',
                        'queue_attempts, upload_request_attempts >= 0 (Int)', 'last_queue_attempt >= 0 (Real)',
                        'filesize 0..2^64-1, bytes_transfered < filesize (Int)'],
     'discriminants': ['direction and owner of each transfer (job parameters)', 'transfer state (symbolic index, forked lazily by the code)',
-                      'initial state QUEUED / INCOMPLETE / FAILED-without-reason', 'user call abort / pause / remove and the loop step at which it is issued',
-                      'outcome of every peer send (ok, slow ok, slow error[, immediate error])', 'idle-point events: extra management cycle, transfer reply'],
-    'bounds': {'quick': {'step_transfers': '1..3', 'scenario_transfers': '1..2 for one peer', 'peer_sends': 2, 'extra_cycles': 1,
-                         'replies': 1, 'loop_steps': 70},
-               'thorough': {'step_transfers': '1..4', 'scenario_transfers': '1..2 for one peer', 'peer_sends': 3, 'extra_cycles': 2,
-                            'replies': 1, 'loop_steps': 110, 'outcomes': 'plus immediate error'}},
+                      'initial state QUEUED / INCOMPLETE / FAILED-without-reason', 'user call abort / pause / remove',
+                      'outcome of every peer send (ok, slow ok, slow error[, immediate error])',
+                      'idle-point events: extra management cycle, transfer reply, write error while uploading, peer re-queues the file'],
+    'bounds': {'quick': {'step_shapes': 'U, D, UU (same/different user), UD, DD', 'scenario_transfers': '1..2 for one peer', 'peer_sends': 2,
+                         'extra_cycles': 1, 'replies': 1, 'loop_steps': 90, 'clock_after_return': '200 s'},
+               'thorough': {'step_shapes': 'all shapes of <= 3 transfers (owner patterns among uploads), UUUU x 2, UUUD',
+                            'scenario_transfers': '1..2 for one peer, every initial state, both targets', 'peer_sends': 3, 'extra_cycles': 2,
+                            'replies': 1, 'loop_steps': 140, 'outcomes': 'downloads: plus immediate error', 'clock_after_return': '200 s'}},
     'outside': ['more management cycles / sends / transfers than the bound', 'real connection code (connect race, indirect connection: C10/C11)',
                 'messages initiated by the peer after the call (PeerTransferRequest for an aborted download is answered with a refusal - '
                 'a legitimate reply, not exercised here)', 'download initialisation (_initialize_download) after a PeerTransferRequest',
@@ -325,29 +381,50 @@ def _users_patterns(n, max_users):
     return out
 
 
+def prelude(tier):
+    return ft.validate_fakes()
+
+
 def jobs(tier):
     q = tier == 'quick'
     out = []
-    shapes = ['U', 'D', 'UU', 'UD', 'DU', 'DD', 'UUD', 'UDD', 'DUU', 'DDD']
-    if not q:
-        shapes += ['UUU', 'DUD', 'UDU', 'DDU', 'UUDD', 'UDUD', 'DDUU', 'DDDD', 'UUUD']
-    for dirs in shapes:
-        for users in _users_patterns(len(dirs), 2 if q else 3):
-            if q and len(dirs) == 3 and users not in ([0, 0, 0], [0, 0, 1], [0, 1, 0]):
-                continue
-            if len(dirs) == 4 and max(users) > 1:
-                continue
-            out.append({'harness': 'step', 'fn': h_step, 'params': {'dirs': dirs, 'users': users},
-                        'requires': ['stepped', 'c06_step_occupied_slot', 'c06_step_started']})
-    sc = dict(cycles=1, sends=2, max_steps=70) if q else dict(cycles=2, sends=3, max_steps=110,
-                                                                outcomes=['ok', 'slow_ok', 'slow_err', 'err'])
+    if q:
+        shapes = [('U', [0]), ('D', [0]), ('UU', [0, 0]), ('UU', [0, 1]), ('UD', [0, 0]), ('DD', [0, 0])]
+    else:
+        # users are concrete here: owner patterns only matter among uploads (one per user)
+        shapes = [('U', [0]), ('D', [0]), ('UU', [0, 0]), ('UU', [0, 1]), ('UD', [0, 0]), ('DU', [0, 0]), ('DD', [0, 0])]
+        shapes += [('UUU', u) for u in _users_patterns(3, 3)]
+        shapes += [('UUD', [0, 0, 0]), ('UUD', [0, 1, 0]), ('UDU', [0, 0, 0]), ('UDU', [0, 0, 1]), ('DUU', [0, 0, 0]), ('DUU', [0, 0, 1]),
+                   ('UDD', [0, 0, 0]), ('DUD', [0, 0, 0]), ('DDU', [0, 0, 0]), ('DDD', [0, 0, 0]),
+                   ('UUUU', [0, 0, 1, 1]), ('UUUU', [0, 1, 0, 1]), ('UUUD', [0, 0, 1, 1])]
+    for dirs, users in shapes:
+        out.append({'harness': 'step', 'fn': h_step, 'params': {'dirs': dirs, 'users': users},
+                    'requires': ['stepped', 'c06_step_occupied_slot', 'c06_step_started', 'c06_step_transition_in_progress']})
+    if q:
+        sc = dict(cycles=1, sends=2)
+        upsc = dict(cycles=1, sends=2, outcomes=['ok', 'slow_err'])
+    else:
+        sc = dict(cycles=2, sends=3, outcomes=['ok', 'slow_ok', 'slow_err', 'err'], max_steps=140)
+        upsc = dict(cycles=2, sends=3, outcomes=['ok', 'slow_ok', 'slow_err'], max_steps=140)
+    req = ['op_done', 'settled_after_return']
     for op in ('abort', 'pause', 'remove'):
-        for kind, inits in (('download', ['QUEUED', 'INCOMPLETE', 'FAILED']), ('upload', ['QUEUED'])):
-            for st in inits:
-                out.append({'harness': 'cancel', 'fn': h_cancel, 'params': dict(kind=kind, init=[st], op=op, target=0, **sc),
-                            'requires': ['op_done']})
+        for st in ('QUEUED', 'INCOMPLETE', 'FAILED'):
+            r = ['op_done'] if (st == 'FAILED' and op != 'remove') else req     # abort/pause of FAILED is always refused
+            out.append({'harness': 'cancel', 'fn': h_cancel, 'params': dict(kind='download', init=[st], op=op, target=0, **sc),
+                        'requires': r})
+            if not q or st == 'QUEUED':
                 for target in (0, 1):
                     out.append({'harness': 'cancel', 'fn': h_cancel,
-                                'params': dict(kind=kind, init=[st, 'QUEUED'], op=op, target=target, **sc),
-                                'requires': ['op_done']})
+                                'params': dict(kind='download', init=[st, 'QUEUED'], op=op, target=target, **sc), 'requires': req})
+        out.append({'harness': 'cancel', 'fn': h_cancel, 'params': dict(kind='upload', init=['QUEUED'], op=op, target=0, **upsc),
+                    'requires': req})
+        if not q or op == 'abort':
+            # the upload breaks, the peer re-queues the file while PeerUploadFailed is still being delivered
+            out.append({'harness': 'cancel', 'fn': h_cancel,
+                        'params': dict(kind='upload', init=['QUEUED'], op=op, target=0, tail=True, cycles=0, sends=2 if q else 3,
+                                       outcomes=['ok', 'slow_ok']), 'requires': req})
+        if not q:
+            for target in (0, 1):
+                out.append({'harness': 'cancel', 'fn': h_cancel,
+                            'params': dict(kind='upload', init=['QUEUED', 'QUEUED'], op=op, target=target, **upsc), 'requires': req})
     return out
